@@ -239,6 +239,7 @@ package database
 //@   ensures[C01.collect-ok] fresh(result) && len(result) == len(scores) && resultsOK(db, result)
 //@   ensures[C04.collect-gates] gatesOK(result, options)
 //@   ensures[C04.collect-from-scores] forall k int :: 0 <= k && k < len(result) ==> (cmdIdx(db, result[k].Command) in scores)
+//@   ensures[C02.collect-index-order] ascendingCmds(db, result)
 //@   ensures[C03.collect-all] forall d int :: (d in scores) ==> (exists k int :: 0 <= k && k < len(result) && result[k].Command == &db.Commands[d])
 //@   ensures[C03.collect-score] pq == nil && options.PipelineBoost <= 0.0 ==> (forall k int :: 0 <= k && k < len(result) ==> result[k].Score == scores[cmdIdx(db, result[k].Command)])
 //@ loop 1
